@@ -698,4 +698,116 @@ example : condD exMacros exLine = .ok true := by
 
 end Composed
 
+/-! ## 7. the two ways in (`preprocess`, `preprocess_fragment`) and the way out (`prepare_tokens`) -/
+
+section EntryPoints
+open RsslVerif.Model.CondFile RsslVerif.Model.Macro RsslVerif.Lemmas.CondFile
+
+/-- Tie to the source: `preprocess_fragment(input, name, ..)` is `preprocess(name, .., [(name, input)], defines)`
+    with exactly one define, `__HLSL_VERSION` = `2021` (any other statement in its body is an `ExtractError`), and
+    `prepare_tokens` is, token for token, "drop `is_whitespace()` tokens, hand every other token on, push `Eof`". -/
+theorem entry_shape_agree :
+    fragmentDefines = [("__HLSL_VERSION", "2021")] ∧ prepareKeepsNonBlank = true := by decide
+
+/-- **A fragment is a file.**  For every token stream, every list of defines and every name, `preprocess_fragment`
+    is the run of `preprocess_included_file` on the fragment from the empty chain (base 0, no output, nothing
+    marked once, depth 0) with the macros of the defines, under a handler that knows the fragment only - so
+    every theorem above that is stated for all handlers, states and token streams (selection, balance per file,
+    gating of skipped groups, `include_is_processed_each_time`) holds for fragments.  Moreover (for *every*
+    handler) a run of the entry file that succeeds ends with the empty chain: an unterminated if-section of the
+    entry file is already rejected by the per-file test of `preprocess_included_file`
+    (`ConditionChainNotFinished`), and the final test of `preprocess_initial_file` can never fire - which is why
+    no input reaches that line of the source. -/
+theorem fragment_is_a_file (items : List SItem) (api : List ApiDef) (entry : String) :
+    (preprocessFragment items api entry =
+      match initialMacros [] api with
+      | .error e => .error e
+      | .ok ms =>
+        match runStream (includeFile (fun n => if n = entry then some items else none) includeFuel) entry
+            ⟨[], 0, ms, [], [], 0⟩ items with
+        | .error e => .error e
+        | .ok st => .ok st.out) ∧
+    (∀ (h : Handler) (ms : List Macro) (st : FState),
+      runStream (includeFile h includeFuel) entry ⟨[], 0, ms, [], [], 0⟩ items = .ok st → st.chain = []) := by
+  have hdead : ∀ (h : Handler) (ms : List Macro) (st : FState),
+      runStream (includeFile h includeFuel) entry ⟨[], 0, ms, [], [], 0⟩ items = .ok st → st.chain = [] := by
+    intro h ms st hr
+    exact (runStream_restores _ (includeFile_restores h includeFuel) entry _ st items hr).1
+  refine ⟨?_, hdead⟩
+  simp only [preprocessFragment, preprocessAll, if_true]
+  cases hm : initialMacros [] api with
+  | error e => rfl
+  | ok ms =>
+    simp only []
+    cases hr : runStream (includeFile (fun n => if n = entry then some items else none) includeFuel) entry
+        ⟨[], 0, ms, [], [], 0⟩ items with
+    | error e => rfl
+    | ok st => simp [hdead _ ms st hr]
+
+/-- the tokens `__HLSL_VERSION 2021` lexes to -/
+def fragApi : List ApiDef := [some [⟨.id "__HLSL_VERSION", true⟩, ⟨.ws, true⟩, ⟨.int "2021", true⟩]]
+
+/-- `#ifdef __HLSL_VERSION⏎1⏎#else⏎2⏎#endif⏎` -/
+def fragIfdef : List SItem :=
+  [T (.punct "#"), T (.id "ifdef"), T .ws, T (.id "__HLSL_VERSION"), T .endline, T (.int "1"), T .endline,
+   T (.punct "#"), T (.punct "else"), T .endline, T (.int "2"), T .endline, T (.punct "#"), T (.id "endif"), T .endline]
+
+/-- Non-vacuity / witness (replayed on the real `preprocess_fragment` by `corpus/C11.txt`): the define the
+    function supplies selects the first group; without it (`preprocess` with no defines) the second one. -/
+theorem fragment_define_selects :
+    preprocessFragment fragIfdef fragApi "main.rssl" = .ok [⟨.int "1", true⟩, ⟨.endline, true⟩] ∧
+    preprocessFragment fragIfdef [] "main.rssl" = .ok [⟨.int "2", true⟩, ⟨.endline, true⟩] := by
+  have e : includeFuel = 201 + 1 := rfl
+  have hm : initialMacros [] fragApi = .ok [⟨"__HLSL_VERSION", false, 0, [⟨.int "2021", true⟩]⟩] := by decide
+  constructor
+  · simp [preprocessFragment, preprocessAll, hm, fragIfdef, runStream, T, fileLoop, isHash,
+      dropTrailingBlanks, command, commandName, gated, RsslVerif.Model.CondFile.exec, trim,
+      trimStart, trimEnd, Tok.isWhitespace, Tok.isBlank, List.dropWhile, flush_nil, flush_noIds, noIds, chainSwitch,
+      chainPop, RsslVerif.Model.CondFile.active, activeState, pushState, newBlock, gate,
+      elseSwitchArg, elseIsElse, Block.switch, CS.switch]
+  · simp [preprocessFragment, preprocessAll, initialMacros, fragIfdef, runStream, T, fileLoop, isHash,
+      dropTrailingBlanks, command, commandName, gated, RsslVerif.Model.CondFile.exec, trim,
+      trimStart, trimEnd, Tok.isWhitespace, Tok.isBlank, List.dropWhile, flush_nil, flush_noIds, noIds, chainSwitch,
+      chainPop, RsslVerif.Model.CondFile.active, activeState, pushState, newBlock, gate,
+      elseSwitchArg, elseIsElse, Block.switch, CS.switch]
+
+/-- **Precisely the selected text reaches the parser.**  For every output of the preprocessor: what
+    `prepare_tokens` hands to the parser is the list of its non-blank tokens, in order, closed by one `Eof`:
+    (1) a token is handed on iff it occurs in the output and is not white space; (2) nothing depends on the
+    context - the hand-over of `a ++ b` is the hand-over of `a` without its `Eof` followed by the hand-over of
+    `b`; (3) `Eof` is the last token and occurs nowhere else; (4) the number of tokens is the number of
+    non-blank tokens plus one; (5) white space only (also: nothing selected) gives `[Eof]`. -/
+theorem selected_text_reaches_parser (a b : List PTok) :
+    (∀ t : Tok, LexTok.tok t ∈ prepareTokens a ↔ (∃ p ∈ a, p.tok = t) ∧ t.isWhitespace = false) ∧
+    prepareTokens (a ++ b) = (prepareTokens a).dropLast ++ prepareTokens b ∧
+    (prepareTokens a).getLast? = some .eof ∧ LexTok.eof ∉ (prepareTokens a).dropLast ∧
+    (prepareTokens a).length = (a.filter (fun t => !t.tok.isWhitespace)).length + 1 ∧
+    ((∀ p ∈ a, p.tok.isWhitespace = true) → prepareTokens a = [.eof]) := by
+  refine ⟨?_, ?_, ?_, ?_, ?_, ?_⟩
+  · intro t
+    simp only [prepareTokens, List.mem_append, List.mem_map, List.mem_filter, List.mem_singleton]
+    constructor
+    · rintro (⟨p, ⟨hp, hw⟩, he⟩ | h)
+      · cases he
+        exact ⟨⟨p, hp, rfl⟩, by simpa using hw⟩
+      · cases h
+    · rintro ⟨⟨p, hp, he⟩, hw⟩
+      exact Or.inl ⟨p, ⟨hp, by simp [he, hw]⟩, by rw [he]⟩
+  · simp [prepareTokens]
+  · simp [prepareTokens]
+  · simp [prepareTokens]
+  · simp [prepareTokens]
+  · intro h
+    have : a.filter (fun t => !t.tok.isWhitespace) = [] := by
+      rw [List.filter_eq_nil_iff]
+      intro p hp
+      simp [h p hp]
+    simp [prepareTokens, this]
+
+/-- Non-vacuity: `1 ⏎ /* c */ x ⏎` reaches the parser as `1 x Eof`. -/
+example : prepareTokens [⟨.int "1", true⟩, ⟨.ws, true⟩, ⟨.endline, true⟩, ⟨.ws, true⟩, ⟨.id "x", true⟩, ⟨.endline, true⟩]
+    = [.tok (.int "1"), .tok (.id "x"), .eof] := by decide
+
+end EntryPoints
+
 end RsslVerif.Thm.C11
